@@ -32,14 +32,14 @@ O == [status |-> Ob.status, len |-> Ob.len, nfit |-> Ob.nfit,
       rows |-> Ob.rows, vol |-> Ob.vol, gibbs |-> Ob.gibbs, bulk |-> Ob.bulk,
       beta |-> Ob.beta, cp |-> Ob.cp, cpfit |-> Ob.cpfit, gru |-> Ob.gru, files |-> Ob.files]
 ImplOK == AtEnd /\ O.status = "ok"
-(* the clauses about the returned tables speak when a result is due at all and every *)
-(* returned row belongs to a fit that succeeded; otherwise ImplRefuses /              *)
-(* ImplFailedFitReported have already failed and the tables mean nothing              *)
-MustRefuse(x) == ~Ascending(x) \/ x.nvd < 4
-ImplTables == ImplOK /\ ~MustRefuse(X) /\ ReqFailedFitReported(X, O)
+(* the clauses about the returned tables speak for inputs inside the statement of C20 *)
+(* whose returned rows all belong to fits that succeeded                              *)
+ImplTables == ImplOK /\ InStatement(X) /\ ReqFailedFitReported(X, O)
+(* conformance with the machine also outside the statement (the machine transcribes   *)
+(* the code there), except where the machine leaves the result unspecified            *)
+ConfTables == ImplOK /\ Done
 
-ImplExact == (AtEnd /\ (O.status = "ok" => ImplTables)) => ev.exact
-ImplRefuses == AtEnd => ReqRefuses(X, O)
+ImplExact == (AtEnd /\ status # "unspecified") => ev.exact
 ImplCompletes == AtEnd => ReqCompletes(X, O)
 ImplFailedFitReported == AtEnd => ReqFailedFitReported(X, O)
 (* every fit starts from values derived from its own row, not from another temperature *)
@@ -58,22 +58,23 @@ ImplHeatCapacityPolyfit == ImplTables => ReqHeatCapacityPolyfit(X, O)
 ImplGruneisen == ImplTables => ReqGruneisen(X, O)
 ImplFiles == ImplTables => ReqFiles(X, O)
 
-ConformsStatus == AtEnd => /\ (O.status = "ok") = (status = "ok")
+ConformsStatus == (AtEnd /\ status # "unspecified") =>
+                           /\ (O.status = "ok") = (status = "ok")
                            /\ (O.status = "AssertionError") = (status = "assert")
                            /\ (O.status = "refused") = (status = "refused")
-ConformsLen == ImplTables /\ Done => O.len = Out.len
-ConformsRows == ImplTables /\ Done => O.rows = Out.rows /\ O.nfit = Len(rows)
-ConformsBulkModulus == ImplTables /\ Done => O.bm = Out.bm /\ O.bmpar = Out.bmpar
-ConformsTables == ImplTables /\ Done => O.vol = Out.vol /\ O.gibbs = Out.gibbs /\ O.bulk = Out.bulk
-ConformsStencils == ImplTables /\ Done => O.beta = Out.beta /\ O.cp = Out.cp /\ O.cpfit = Out.cpfit /\ O.gru = Out.gru
-ConformsFiles == ImplTables /\ Done => O.files = Out.files
+ConformsLen == ConfTables => O.len = Out.len
+ConformsRows == ConfTables => O.rows = Out.rows /\ O.nfit = Len(rows)
+ConformsBulkModulus == ConfTables => O.bm = Out.bm /\ O.bmpar = Out.bmpar
+ConformsTables == ConfTables => O.vol = Out.vol /\ O.gibbs = Out.gibbs /\ O.bulk = Out.bulk
+ConformsStencils == ConfTables => O.beta = Out.beta /\ O.cp = Out.cp /\ O.cpfit = Out.cpfit /\ O.gru = Out.gru
+ConformsFiles == ConfTables => O.files = Out.files
 
 (* compact per-event verdict for the harness: which clauses fail for which input.   *)
 (* Always TRUE as an invariant (PrintT is TRUE); the clauses themselves are checked  *)
 (* as invariants above.                                                             *)
 Verdict(n) ==
   CASE n = "ImplExact" -> ImplExact [] n = "ImplCompletes" -> ImplCompletes [] n = "ImplLength" -> ImplLength
-    [] n = "ImplRefuses" -> ImplRefuses [] n = "ImplFailedFitReported" -> ImplFailedFitReported
+    [] n = "ImplFailedFitReported" -> ImplFailedFitReported
     [] n = "ImplFitStart" -> ImplFitStart [] n = "ImplFiles" -> ImplFiles
     [] n = "ImplPerTemperatureElectronic" -> ImplPerTemperatureElectronic [] n = "ImplPhononUnit" -> ImplPhononUnit
     [] n = "ImplPressureSign" -> ImplPressureSign [] n = "ImplRecoverVolume" -> ImplRecoverVolume
@@ -84,7 +85,7 @@ Verdict(n) ==
     [] n = "ConformsRows" -> ConformsRows [] n = "ConformsBulkModulus" -> ConformsBulkModulus
     [] n = "ConformsTables" -> ConformsTables [] n = "ConformsStencils" -> ConformsStencils
     [] n = "ConformsFiles" -> ConformsFiles
-Clauses == {"ImplExact", "ImplCompletes", "ImplLength", "ImplRefuses", "ImplFailedFitReported", "ImplFitStart",
+Clauses == {"ImplExact", "ImplCompletes", "ImplLength", "ImplFailedFitReported", "ImplFitStart",
             "ImplFiles", "ImplPerTemperatureElectronic", "ImplPhononUnit",
             "ImplPressureSign", "ImplRecoverVolume", "ImplRecoverGibbs", "ImplRecoverBulk", "ImplBulkModulusObject",
             "ImplThermalExpansion", "ImplHeatCapacity", "ImplHeatCapacityPolyfit", "ImplGruneisen", "ConformsStatus",
@@ -92,4 +93,10 @@ Clauses == {"ImplExact", "ImplCompletes", "ImplLength", "ImplRefuses", "ImplFail
 Report ==
   AtEnd => LET failed == {n \in Clauses : ~Verdict(n)}
            IN  failed # {} => PrintT(<<"FAILED", X.id, failed>>)
+
+(* observations outside the statement of C20: recorded by the harness, never a violation *)
+Observe ==
+  AtEnd => LET seen == {n \in {"ObsRefuses", "ObsTypeErrorNotReplaced"} :
+                          ~(IF n = "ObsRefuses" THEN ObsRefuses(X, O) ELSE ObsTypeErrorNotReplaced(X, O))}
+           IN  seen # {} => PrintT(<<"OBSERVED", X.id, seen>>)
 =============================================================================
